@@ -116,13 +116,36 @@ static void iauth_class_free_rules(void)
     xfree(conf.rules.vec);
 }
 
+CONF_UPDATE_HOOK(iauth_class_conf_changed);
+
+/** Handles an in-place edit of a rule (or of one of its items). */
+static CONF_UPDATE_HOOK(iauth_class_rule_changed)
+{
+    iauth_class_conf_changed(&conf.root->base);
+    (void)node_;
+}
+
+/** Returns the value of string item \a name of rule \a obj (or NULL),
+ * making sure that later edits of the item reach us.
+ */
+static const char *iauth_class_rule_item(struct conf_node_object *obj, const char *name)
+{
+    struct conf_node_string *str;
+
+    str = conf_get_child(obj, name, CONF_STRING);
+    if (!str)
+        return NULL;
+    str->base.hook = iauth_class_rule_changed;
+    return str->value;
+}
+
 CONF_UPDATE_HOOK(iauth_class_conf_changed)
 {
     struct iauth_class_rules new_rules;
     struct iauth_class_rule *rule;
     struct conf_node_base *base;
     struct conf_node_object *obj;
-    struct conf_node_string *str;
+    const char *val;
     struct set_node *it;
     unsigned int n_rules;
     unsigned int o_idx = 0;
@@ -138,31 +161,22 @@ CONF_UPDATE_HOOK(iauth_class_conf_changed)
         if (base->type != CONF_OBJECT)
             continue;
         obj = set_node_data(it);
+        obj->base.hook = iauth_class_rule_changed;
 
         /* Load the new rule. */
         rule = &new_rules.vec[new_rules.used];
         rule->name = xstrdup(obj->base.name);
-        str = conf_get_child(obj, "class", CONF_STRING);
-        if (str)
-            rule->class = xstrdup(str->value);
-        str = conf_get_child(obj, "account", CONF_STRING);
-        if (str)
-            rule->account = xstrdup(str->value);
-        str = conf_get_child(obj, "address", CONF_STRING);
-        if (str)
-            irc_pton(&rule->address, &rule->address_bits, str->value, 0);
-        str = conf_get_child(obj, "username", CONF_STRING);
-        if (str)
-            rule->username = xstrdup(str->value);
-        str = conf_get_child(obj, "hostname", CONF_STRING);
-        if (str)
-            rule->hostname = xstrdup(str->value);
-        str = conf_get_child(obj, "xreply_ok", CONF_STRING);
-        if (str)
-            rule->xreply_ok = xstrdup(str->value);
-        str = conf_get_child(obj, "trust_username", CONF_STRING);
-        if (str)
-            rule->trust_username = conf_parse_boolean(str->value, 0);
+        rule->class = xstrdup(iauth_class_rule_item(obj, "class"));
+        rule->account = xstrdup(iauth_class_rule_item(obj, "account"));
+        val = iauth_class_rule_item(obj, "address");
+        if (val)
+            irc_pton(&rule->address, &rule->address_bits, val, 0);
+        rule->username = xstrdup(iauth_class_rule_item(obj, "username"));
+        rule->hostname = xstrdup(iauth_class_rule_item(obj, "hostname"));
+        rule->xreply_ok = xstrdup(iauth_class_rule_item(obj, "xreply_ok"));
+        val = iauth_class_rule_item(obj, "trust_username");
+        if (val)
+            rule->trust_username = conf_parse_boolean(val, 0);
 
         /* Increment the number of rules in the new set. */
         new_rules.used++;
